@@ -216,6 +216,12 @@ func (e *Explorer) Explore() {
 			wg.Add(1)
 			go func() {
 				defer wg.Done()
+				classes := map[string]struct{}{}
+				defer func() {
+					for c := range classes {
+						e.Run.Nontrivial(c)
+					}
+				}()
 				for {
 					i := int(atomic.AddInt64(&idx, 1))
 					if i >= len(frontier) {
@@ -229,6 +235,22 @@ func (e *Explorer) Explore() {
 						}
 						out := Step(e.T, e.Sc, pre, ev)
 						atomic.AddInt64(&e.Transitions, 1)
+						{ // distinct non-trivial transition classes: (scenario, event kind, pod creates, pod deletes, other writes, error)
+							cr, de, wr := 0, 0, 0
+							for _, c := range out.Log {
+								switch {
+								case c.Kind == "Pod" && c.Verb == "create":
+									cr++
+								case c.Kind == "Pod" && c.Verb == "delete":
+									de++
+								case c.IsWrite():
+									wr++
+								}
+							}
+							if cr+de+wr > 0 || ev.Dev {
+								classes[fmt.Sprintf("%s|%s|c%d d%d w%d err=%v", e.Sc.Name, ev.K, cr, de, wr, out.RR.Err != nil || out.CmdErr != nil)] = struct{}{}
+							}
+						}
 						cnt, _ := e.perEvent.LoadOrStore(ev.K, new(int64))
 						atomic.AddInt64(cnt.(*int64), 1)
 						mc := &MonCtx{Sc: e.Sc, Pre: pre, Out: out, Run: e.Run, ex: e, rank: int64(depth)<<40 | int64(i)<<8 | int64(j)}
